@@ -3,6 +3,8 @@ mod enc;
 mod names;
 mod sess;
 mod snap;
+mod builtins;
+mod codec;
 mod corpus;
 mod highlight;
 mod numtower;
@@ -32,6 +34,8 @@ fn main() {
         "gen" => gen_cmd::main(&args[2..]),
         "eval" => eval_file(&args[2..]),
         "gcsnap" => gcsnap::main(&args[2..]),
+        "codec" => codec::main(&args[2..]),
+        "builtins" => builtins::main(&args[2..]),
         "pool" => pool::main(&args[2..]),
         "garbage" => gcsnap::garbage_main(&args[2..]),
         "highlight" => highlight::main(&args[2..]),
